@@ -632,13 +632,47 @@ def _may_advance(prog, frm, callee, ai, adv, depth):
     return False
 
 
+def _unmoved_cycle_feasible(f, head, body, moving):
+    """Path-sensitive confirmation of a way round the loop that passes no advancing block: the explorer follows the
+    function with its tracked locals and call outcomes (so `ok = step (); if (!ok) return` leaves the loop) and reports
+    whether the header can be re-entered with the cursor where it was.  True when it can, or when the exploration is too
+    large to refute it."""
+    from .cfg import Explorer
+    hit = []
+    first = f.blocks[head]['events'][0] if f.blocks[head]['events'] else None
+    if first is None:
+        return True
+
+    def on_event(user, ev, ctx):
+        if ctx.bid == head:
+            if ev is first:
+                if user is False:
+                    hit.append(ev['line'])
+                return False
+            return user
+        if ctx.bid in moving and user is not None:
+            return True
+        return user
+    try:
+        ex = Explorer(f, init=None, on_event=on_event, track='auto', calls='ALL', cap=150000)
+        ex.run()
+    except AnalysisBroken:
+        return True
+    return bool(hit)
+
+
 def cursor_loops_advance(prog, rule, files, floor=1):
     """Every loop that runs `while the value cursor R is not at the end` moves R on each way round: every cycle
     through the loop's header passes a call that advances R (or R is written).  A way round without the advance sees
     the same element again and again: the loop never ends."""
     from .cfg import strip_addr, written_lvalues, is_ref, estr
+    alias = {}
 
     def cursor_key(e):
+        k = raw_key(e)
+        return alias.get(k, k)
+
+    def raw_key(e):
         if e is None:
             return None
         inner = strip_addr(e)
@@ -654,6 +688,19 @@ def cursor_loops_advance(prog, rule, files, floor=1):
     for f in prog.funcs.values():
         if f.file not in files or not prog.is_production(f):
             continue
+        # pointer locals that only ever hold the address of one cursor stand for that cursor
+        alias.clear()
+        defs = {}
+        for b, i, ev in f.events():
+            for lhs, how, rhs in written_lvalues(ev):
+                if ('k' not in lhs or is_ref(lhs)) and lhs.get('kind') == 'local' and 'id' in lhs and how in ('=', 'decl') \
+                        and rhs is not None:
+                    defs.setdefault(lhs['id'], []).append(rhs)
+                elif ('k' not in lhs or is_ref(lhs)) and 'id' in lhs and how not in ('decl',):
+                    defs.setdefault(lhs['id'], []).append(None)
+        for vid, ds in defs.items():
+            if len(ds) == 1 and ds[0] is not None and strip_addr(ds[0]) is not None:
+                alias[('id', vid)] = raw_key(ds[0])
         loops = {}
         for h, body in natural_loops(f):
             loops.setdefault(h, set()).update(body)
@@ -695,6 +742,8 @@ def cursor_loops_advance(prog, rule, files, floor=1):
                     break
                 seen.add(b)
                 todo += f.blocks[b]['succs']
+            if bad:
+                bad = _unmoved_cycle_feasible(f, h, body, moving)
             if bad:
                 lines = sorted(ev['line'] for b in seen for ev in f.blocks[b]['events'])
                 rule.violation(key, f.name, f.file, test['line'],
